@@ -23,10 +23,38 @@ from vf.models.base import Model
 MOVES = [(-1, 0), (0, -1), (1, 0), (0, 1)]
 
 
+# "The generator can be used to generate new maps based on an ASCII representation of the desired
+# map": a small non-square hand-made map (4 ghosts G, 4 initial targets T, 4 scatter targets S,
+# 4 power-ups O, player P, a wrap-around tunnel row) for the instance validator (C10) only.
+SMALL_MAZE = [
+    "XXXXXXXXXXXXX",
+    "XS    T    SX",
+    "X XXX X XXX X",
+    "XO   G G   OX",
+    "X XXX X XXX X",
+    "    T P T    ",
+    "X XXX X XXX X",
+    "XO   G G   OX",
+    "X XXX X XXX X",
+    "XS    T    SX",
+    "XXXXXXXXXXXXX",
+]
+
+
+def _small_env():
+    import jumanji.environments as E
+    from jumanji.environments.routing.pac_man.generator import AsciiGenerator
+
+    return E.PacMan(generator=AsciiGenerator(SMALL_MAZE))
+
+
+EXTRA_INSTANCE_CONFIGS = {"ascii_11x13": _small_env}
+
+
 class M(Model):
     ENV = "PacMan"
     # AsciiGenerator is documented as deterministic: the same map on every reset
-    DETERMINISTIC_CONFIGS = ("tNone", "t7", "t3", "t1", "t40")
+    DETERMINISTIC_CONFIGS = ("tNone", "t7", "t3", "t1", "t40", "ascii_11x13")
 
     def __init__(self, b):
         super().__init__(b)
